@@ -177,6 +177,22 @@ fn failing_calls_n<const N: usize>() {
         r.put(2, &dat(1));
         let _ = l.merge(&r, 200, 0);
     });
+    // merge: stopped late, by the lack of a free id, after the right vertices 1, 2, 3 (ids that small
+    // right graphs use below their root) were given left vertices with high ids
+    let _ = guarded(|| {
+        let mut l: Sodg<N> = Sodg::empty(206);
+        for v in 0..=202 {
+            l.add(v);
+        }
+        let mut r: Sodg<N> = Sodg::empty(6);
+        for v in 0..5 {
+            r.add(v);
+        }
+        for v in 0..4 {
+            r.bind(v, v + 1, lab(0));
+        }
+        let _ = l.merge(&r, 202, 0);
+    });
     // slice / inspect / v_print / kids / data on an id beyond the capacity or absent
     let small = || {
         let mut s: Sodg<N> = Sodg::empty(4);
